@@ -57,11 +57,11 @@ def gen_scripts(ctx):
         sc = json.load(open(p))
         sc.pop("comment", None)
         scripts.append(sc)
-    n = 600 if ctx.thorough else 120
+    n = 600 if ctx.thorough else 100
     for i in range(n):
         flavor = ["guarded", "claimless", "overlap", "guarded"][i % 4]
         scripts.append({"id": "r%d" % i, "nodes": 3, "mode": "random", "seed": ctx.rng.randrange(1, 2 ** 62),
-                        "max_steps": ctx.rng.choice([25, 40, 60]), "flavor": flavor,
+                        "max_steps": ctx.rng.choice([20, 35, 50]), "flavor": flavor,
                         "fail_pct": ctx.rng.choice([0, 10, 25, 40])})
     return scripts
 
@@ -185,10 +185,12 @@ def run(ctx):
             if m is None or (m["claimless"] == 0 and m["overlap"] == 0):
                 ctx.violation("at_most_one_active:schedule-within-C30_partial-guard", what + " in a schedule without claim-less step and without deactivation overlap", replay)
             elif m["claimless"] > 0 and m["overlap"] == 0:
-                ctx.violation(SIG_CLAIMLESS, WHAT_CLAIMLESS + " [" + what + "]", replay)
+                if SIG_CLAIMLESS not in known_seen:
+                    ctx.violation(SIG_CLAIMLESS, WHAT_CLAIMLESS + " [" + what + "]", replay)
                 known_seen.add(SIG_CLAIMLESS)
             elif m["overlap"] > 0 and m["claimless"] == 0:
-                ctx.violation(SIG_LATE_REMOVE, WHAT_LATE_REMOVE + " [" + what + "]", replay)
+                if SIG_LATE_REMOVE not in known_seen:
+                    ctx.violation(SIG_LATE_REMOVE, WHAT_LATE_REMOVE + " [" + what + "]", replay)
                 known_seen.add(SIG_LATE_REMOVE)
             else:
                 ctx.violation("at_most_one_active:mixed-schedule(%s)" % fl, what, replay)
@@ -232,7 +234,7 @@ def run(ctx):
         "traces_with_two_live_instances": two_live, "model_vs_impl_mismatches": n_mis,
         "stress": [{k: v for k, v in s.items() if k != "ops"} for s in stress],
         "known_schedule_shapes_replayed": sorted(known_seen),
-        "theorems": ["C30_refuted", "C30_registry_refuted", "C30_refuted_no_failure", "C30_partial", "C30_partial_at_most_one", "C30_partial_registry_names_holder"],
+        "theorems": ["C30_refuted", "C30_registry_refuted", "C30_refuted_no_failure", "C30_partial", "C30_partial_at_most_one", "C30_partial_registry_names_holder", "C30_partial_nonvacuous", "C30_registry_nx_exclusive"],
     })
 
 
